@@ -185,14 +185,6 @@ class VnodeContract:
         return lst
 
 
-def symlist_contains(it, lst, x, node=None):
-    fn = getattr(lst, 'contains_fn', None)
-    if fn is None:
-        raise Unsupported('membership in symbolic list')
-    return fn(x)
-
-
-libattr.symlist_contains = symlist_contains
 
 
 class DecoderPolicy(DefaultPolicy):
